@@ -30,7 +30,7 @@ def hex4 (a b c d : Nat) : Option Nat :=
   | _, _, _, _ => none
 
 /-- the single-letter escapes (`case 'b': *d = '\b'` …), from the regenerated table -/
-def unescLetter (c : Nat) : Option Nat := (Gen.jsonUnescLetters.find? (·.1 == c)).map (·.2)
+def unescLetter (c : Nat) : Option Nat := (Gen.Json.jsonUnescLetters.find? (·.1 == c)).map (·.2)
 
 /-- bytes of `bs` that the guarded stores `if (d < de) *d = …; ++d` really write when `d` is the
     current offset and `dlen` the buffer size -/
